@@ -260,7 +260,7 @@ class HyperbandOracle(oracle_module.Oracle):
         bracket_num = bracket["bracket_num"]
         rounds = bracket["rounds"]
         values = self._random_values()
-        if values:
+        if values is not None:
             values["tuner/epochs"] = self._get_epochs(bracket_num, 0)
             values["tuner/initial_epoch"] = 0
             values["tuner/bracket"] = self._current_bracket
